@@ -3,11 +3,11 @@ CONSTANTS
   SetPrios = {1}
   Alphabet <- AlphaReAdd
   K = 1
-  CapBase = 24
+  ReAddPinned = FALSE
+  CapBase = 0
 INIT Init
 NEXT Next
 VIEW View
 INVARIANT PWait
 INVARIANT PProp
 INVARIANT QueueIsPollSet
-CONSTRAINT GConstraint
